@@ -133,6 +133,25 @@ def check_case(run, case):
                           observed={'a': oa[:6], 'b': ob[:6]}, expected={'a': base[La][:6], 'b': base[Lb][:6]})
             return
         run.ev('interleaved_pairs')
+        # (e) the same model with DOS line ends in the n-gram files (a ruleset that went through a Windows checkout; Rules/Default ships LN.level that way) is the same model
+        files = [os.path.join(od, f) for f in ('IP.level', 'CP.level', 'EP.level', 'LN.level')]
+        raw = [open(f, 'rb').read() for f in files]
+        if not any(b'\r' in b for b in raw):
+            for f, b in zip(files, raw):
+                open(f, 'wb').write(b.replace(b'\n', b'\r\n'))
+            g2 = {}
+            ok2 = load_rules(od, g2)
+            for f, b in zip(files, raw):
+                open(f, 'wb').write(b)
+            if not ok2:
+                run.violation('real load_rules rejected the model once its n-gram files had CRLF line ends', case); return
+            for L in rng.sample(levels, min(4, len(levels))):
+                got = pull(MarkovCracker, g2, L, CountingOptimizer(max_length=case['opt_len']), len(expected.get(L, [])) + 2)
+                if got != base[L]:
+                    run.violation(f'level {L}: the model read from n-gram files with CRLF line ends generates {len(got)} strings, the LF files {len(base[L])} (same content)', case,
+                                  observed=got[:8], expected=base[L][:8])
+                    return
+            run.ev('crlf_twin_models')
         # (e) one generator object used again after it reported exhaustion (next_guess documents: "it will reset so if you call it again it will start looping
         # over the same guesses"): the second round is the level again, whatever was generated before
         for L in rng.sample(levels, min(4, len(levels))):
